@@ -361,7 +361,7 @@ theorem comments_kept (fuel : Nat) (ctx : Ctx) (arms : List Arm) (pib : Bool) (c
     (h : getNextTagOrComment ctx e s = .ok (.comment tok off) { s with pos := s.pos + 1 }) :
     parseTagged (fuel + 1) ctx arms pib ch cm e s =
       (if pib then
-        parseTagged fuel ctx arms pib ch (⟨tok.text, ctx.line, s.seqId + 1, off, ctx.fileid ≠ 0⟩ :: cm) e
+        parseTagged fuel ctx arms pib ch (⟨tok.text, ctx.line, s.seqId + 1, off, tok.fileid ≠ 0⟩ :: cm) e
           { s with pos := s.pos + 1, seqId := s.seqId + 1 }
       else parseTagged fuel ctx arms pib ch cm e { s with pos := s.pos + 1 }) := by
   rw [parseTagged, bind_def, h]
